@@ -16,7 +16,7 @@ import (
 
 // writeFault is one injected writer fault.
 type writeFault struct {
-	Mode string `json:"mode"` // sticky | transient | partial | capacity
+	Mode string `json:"mode"` // sticky | transient | partial | fullcount | capacity
 	K    int    `json:"k"`    // call index (1-based) or byte capacity
 }
 
@@ -79,10 +79,7 @@ func classify(out []byte, sizes []int, texts map[string]bool) []string {
 }
 
 func catalogue(cc *sut.Compiled, kind int) soymsg.Bundle {
-	if kind < 0 {
-		return nil
-	}
-	return faults.NewBundle(faults.BundleKind(kind), cc.Msgs)
+	return faults.Catalogue(kind, cc.Msgs)
 }
 
 // c12Run executes one faulted render and applies the oracle.  ref is the fault-free run.
@@ -95,6 +92,8 @@ func c12Run(cc *sut.Compiled, cs *c12Case, f writeFault, ref *faults.Writer, ref
 		w.FailCall = f.K
 	case "partial":
 		w.FailCall, w.Partial = f.K, true
+	case "fullcount":
+		w.FailCall, w.FullCount = f.K, true
 	case "capacity":
 		w.Capacity = f.K
 	}
@@ -193,7 +192,7 @@ func C12(c *wk.Ctx) {
 	}
 	units, perUnit := 600, 5
 	if c.Tier == "thorough" {
-		units, perUnit = 20000, 5
+		units, perUnit = 100000, 5
 	}
 	if c.Mode == "plan" {
 		c.Emit(map[string]interface{}{"ev": "plan", "units": units, "cases_per_unit": perUnit})
@@ -208,7 +207,7 @@ func C12(c *wk.Ctx) {
 			gc := gen.Generate(seed, c12Opts())
 			cs := &c12Case{Case: gc, Catalogue: -1}
 			if r.Intn(2) == 0 {
-				cs.Catalogue = r.Intn(3)
+				cs.Catalogue = []int{0, 1, 2, faults.KindPO}[r.Intn(4)]
 			}
 			if r.Intn(4) == 0 {
 				cs.Obligatory = []string{"vbang"}
@@ -256,14 +255,14 @@ func C12(c *wk.Ctx) {
 				var fs []writeFault
 				if n <= 600 {
 					for k := 1; k <= n; k++ {
-						fs = append(fs, writeFault{"sticky", k}, writeFault{"transient", k}, writeFault{"partial", k})
+						fs = append(fs, writeFault{"sticky", k}, writeFault{"transient", k}, writeFault{"partial", k}, writeFault{"fullcount", k})
 					}
 				} else {
 					// beyond the per-case bound the call indices are sampled (counted separately)
 					u.Counters["cases_beyond_exhaustive_bound"]++
 					for i := 0; i < 200; i++ {
 						k := 1 + r.Intn(n)
-						fs = append(fs, writeFault{"sticky", k}, writeFault{"transient", k}, writeFault{"partial", k})
+						fs = append(fs, writeFault{"sticky", k}, writeFault{"transient", k}, writeFault{"partial", k}, writeFault{"fullcount", k})
 					}
 				}
 				total := len(ref.Accepted)
@@ -312,6 +311,9 @@ func C12(c *wk.Ctx) {
 						u.Counters["fault_landed_on_"+kind]++
 						if cs.Catalogue >= 0 {
 							u.Counters["fault_fired_with_catalogue"]++
+						}
+						if cs.Catalogue == faults.KindPO {
+							u.Counters["fault_fired_with_pomsg_bundle"]++
 						}
 					} else {
 						u.Counters["fault_not_fired_"+f.Mode]++
